@@ -144,6 +144,74 @@ func runC12(r *core.Run) {
 			return core.Outcome{Class: "panics", Nontrivial: true, Evals: 2}
 		})
 
+	// The iterator is made over a buffer that the caller refills before walking it (one iterator per read
+	// buffer is what the lazy form invites). Two readings are legitimate: the items describe the buffer
+	// as it is when walked, or as it was when the iterator was made (a snapshot). A walk whose items are
+	// canonical k-mers of NEITHER content mixes the two and is wrong under both.
+	type c12Edit struct {
+		Made   core.S `json:"content_when_made"`
+		Walked core.S `json:"content_when_walked"`
+		K      int    `json:"k"`
+	}
+	canonOf := func(seq []byte, k int) string {
+		var w []string
+		for i := 0; i+k <= len(seq); i++ {
+			km := seq[i : i+k]
+			if rc, _ := ref.RevComp(km); bytes.Compare(rc, km) < 0 {
+				km = rc
+			}
+			w = append(w, string(km))
+		}
+		return strings.Join(w, ",")
+	}
+	core.Clause(r, "canonical-iterator-over-refilled-buffer", core.Opts{Rule: "CanonicalSubsequences(buf,k) is made while buf holds s1, buf is overwritten with s2 of the same length, the iterator is walked, buf gets s1 back, the iterator is walked again; every ordered pair of equal-length sequences over ACGT up to length 4 x k in 1..3; the first walk must be the canonical k-mers of s2 (lazy) or of s1 (snapshot), the second those of s1; non-trivial = s1 != s2 and at least one item"},
+		func(emit func(c12Edit) bool) {
+			enum.Strings("ACGT", 4, func(s1 string) bool {
+				ok := true
+				enum.Strings("ACGT", 4, func(s2 string) bool {
+					if len(s2) != len(s1) {
+						return true
+					}
+					for k := 1; k <= 3 && ok; k++ {
+						ok = emit(c12Edit{core.S(s1), core.S(s2), k})
+					}
+					return ok
+				})
+				return ok
+			})
+		},
+		func(c c12Edit) core.Outcome {
+			buf := bytes.Clone(c.Made.B())
+			walk := func(it func(func([]byte) bool)) string {
+				var got []string
+				for km := range it {
+					got = append(got, string(km))
+					if len(got) > len(buf)+3 {
+						break
+					}
+				}
+				return strings.Join(got, ",")
+			}
+			var first, second string
+			if p := catch(func() {
+				it := sequtil.CanonicalSubsequences(buf, c.K)
+				copy(buf, c.Walked.B())
+				first = walk(it)
+				copy(buf, c.Made.B())
+				second = walk(it)
+			}); p != "" {
+				return core.Failf("CanonicalSubsequences over a buffer holding %q, refilled with %q before the walk, k=%d: panic: %s", c.Made.B(), c.Walked.B(), c.K, p)
+			}
+			lazy, snap := canonOf(c.Walked.B(), c.K), canonOf(c.Made.B(), c.K)
+			if first != lazy && first != snap {
+				return core.Failf("CanonicalSubsequences(buf,%d) made while buf held %q and walked after buf was refilled with %q yields %q: neither the canonical k-mers of the buffer as walked (%q) nor as it was (%q)", c.K, c.Made.B(), c.Walked.B(), first, lazy, snap)
+			}
+			if second != snap {
+				return core.Failf("CanonicalSubsequences(buf,%d): second walk with buf holding %q again yields %q, want %q", c.K, c.Made.B(), second, snap)
+			}
+			return core.Outcome{Class: map[bool]string{true: "lazy", false: "snapshot-or-same"}[first == lazy && lazy != snap], Nontrivial: !bytes.Equal(c.Made.B(), c.Walked.B()) && len(buf) >= c.K, Evals: 2}
+		})
+
 	core.Clause(r, "canonical-iterator-reuse", core.Opts{Rule: "one iter.Seq value from CanonicalSubsequences used as a history: run fully twice; run fully after an early break at every position; a full run nested inside another run at every position; every sequence over ACGT up to length 5 x k in 1..3; non-trivial = at least 2 items"},
 		func(emit func(c12Canon) bool) {
 			enum.Strings("ACGT", 5, func(s string) bool {
